@@ -37,6 +37,12 @@ PROPS = {
         decided_by_proof="the HandleBulkBody loop: one item per action in order, item status local to its action, stored = created, errors flag = some item failed, for every body",
         partial="JSON classification of lines (jsonparser), store-level failures after acknowledgement, searchability after flush, HTTP layer, Splunk/Loki entry points: correspondence/E2E only",
     ),
+    "C17": dict(
+        suites=[("qtable", 4000, 60000)],
+        facts={"const.MAX_WAITING_QUERIES": "500"},
+        decided_by_proof="running/waiting query tables over all operation sequences: waiting-queue bound, admission bound through pull, no qid both waiting-object and running-object twice, cancel of a running or waiting query takes effect, delete frees the entry, sends under table locks never block for fresh objects",
+        partial="parser totality/termination/determinism for all byte strings (PEG-generated parsers are not modelled), goroutine leaks, timeout goroutine timing, blocking of CancelQuery on a full StateChan with a stalled consumer: NOT decided by proof",
+    ),
 }
 
 NOT_YET = {}
